@@ -296,6 +296,12 @@ impl Program {
             log::info!("Synced module cache with the entrypoint");
         }
 
+        // also before running: a Rust panic during execution would skip the dump below
+        #[cfg(mscript_verif)]
+        if let Some(dump_path) = std::env::var_os("MSCRIPT_VERIF_DUMP") {
+            let _ = std::fs::write(dump_path, crate::verif::dump_file(&entrypoint));
+        }
+
         log::trace!("Creating call stack...");
         let stack = Rc::new(RefCell::new(Stack::new()));
         log::trace!("Created call stack");
